@@ -178,7 +178,9 @@ pub fn undo_renaming(id: &str, renamify_dir: &Path) -> Result<()> {
     });
 
     for (from, to) in &dir_mappings {
-        if to.exists() {
+        // `symlink_metadata` rather than `exists()`: the latter follows symbolic links and reports a
+        // dangling link as missing, so a renamed link would never be renamed back.
+        if fs::symlink_metadata(to).is_ok() {
             fs::rename(to, from)?;
         }
     }
@@ -218,7 +220,7 @@ pub fn undo_renaming(id: &str, renamify_dir: &Path) -> Result<()> {
     });
 
     for (from, to) in &file_renames {
-        if to.exists() {
+        if fs::symlink_metadata(to).is_ok() {
             // Handle case-only renames on case-insensitive filesystems
             let case_only = from.to_string_lossy().to_lowercase()
                 == to.to_string_lossy().to_lowercase()
